@@ -36,11 +36,7 @@ fn rand_text(r: &mut R) -> Vec<u8> {
 fn universe(r: &mut R, kind: u32, n: usize) -> (Vec<DataTypeKind>, Vec<K>) {
     let mut ks: Vec<K> = vec![];
     let kinds = match kind {
-        0 => {
-            // 64-bit keys are compared through f64 by the engine (recorded finding NumericCompareViaF64, property C19): keys here are
-            // exactly representable (below 2^53, or multiples of 4096 up to the top of the range) so that the key order is the numeric one
-            for _ in 0..n { ks.push(K::U(match r.random_range(0..6) { 0 => r.random_range(0..50), 1 => (u64::MAX >> 12 << 12) - 4096 * r.random_range(0..50u64), 2 => r.random::<u64>() >> 12 << 12, _ => r.random::<u64>() >> 11 })); }
-            ks.push(K::U(0)); ks.push(K::U(u64::MAX >> 12 << 12)); vec![DataTypeKind::BigUInt] }
+        0 => { for _ in 0..n { ks.push(K::U(match r.random_range(0..6) { 0 => r.random_range(0..50), 1 => u64::MAX - r.random_range(0..50), 2 => (1u64 << 53) + r.random_range(0..40), _ => r.random::<u64>() })); } ks.push(K::U(0)); ks.push(K::U(u64::MAX)); vec![DataTypeKind::BigUInt] }
         1 => { for _ in 0..n { ks.push(K::I(match r.random_range(0..6) { 0 => r.random_range(-50..50), 1 => i32::MIN + r.random_range(0..50), 2 => i32::MAX - r.random_range(0..50), _ => r.random::<i32>() })); } ks.push(K::I(i32::MIN)); ks.push(K::I(-1)); ks.push(K::I(0)); vec![DataTypeKind::Int] }
         2 => { for _ in 0..n { ks.push(K::T(rand_text(r))); } ks.push(K::T(vec![])); ks.push(K::T(b"a".to_vec())); ks.push(K::T(b"ab".to_vec())); vec![DataTypeKind::Blob] }
         _ => { for _ in 0..n { ks.push(K::C(r.random_range(-3..4), rand_text(r))); } vec![DataTypeKind::Int, DataTypeKind::Blob] }
